@@ -606,8 +606,8 @@ def run_ratio_function(ctx):
     """'Function parameters are the function of the same-step values of their dependencies': a function of a ratio characteristic
     frac0 = c0 / (c0 + c1) must have the value f(c0[t] / (c0[t] + c1[t])) at every step whenever the denominator is positive, whether the
     parameter drives a transition (evaluated during the run, Characteristic.update), is a pure output (evaluated after the run from
-    Characteristic.vals), or both; and the characteristic the Result reports must be that same quotient. Numerators around the library's
-    1e-6 tolerance are where the per-step and the vectorised rule could part."""
+    Characteristic.vals), or both; and the characteristic the Result reports must be that same quotient -- except that, as C07 states, a numerator
+    below 1e-6 people is reported as 0 (the in-loop rule divides; either is accepted there, see DESIGN 13.4)."""
     from vlib import genfw
 
     r = ctx.rng
@@ -643,12 +643,14 @@ def run_ratio_function(ctx):
             if not den > 0:
                 continue   # 0/0 is defined as 0 by the library; not the subject here
             want = a[ti] / den
+            # C07 states the reporting rule: a numerator below 1e-6 people is reported as 0; inside the loop the quotient is used. Both are accepted there.
+            alt = 0.0 if a[ti] < 1e-6 * (1 + 1e-9) else want
             seen = {"reported characteristic frac0": float(pop.get_charac("frac0").vals[ti]) }
             for nm in ("ra0", "out0"):
                 if any(p_["name"] == nm and p_.get("function") for p_ in pars):
                     seen[f"parameter {nm} / {k}"] = float(pop.get_par(nm).vals[ti]) / k
             for what, got in seen.items():
-                if abs(got - want) > 1e-9 * max(1.0, abs(want)):
+                if abs(got - want) > 1e-9 * max(1.0, abs(want)) and abs(got - alt) > 1e-9 * max(1.0, abs(alt)):
                     bad = f"index {ti}: c0={a[ti]!r}, c0+c1={den!r}, quotient {want!r}, but {what} = {got!r}"
                     break
             if bad:
@@ -679,7 +681,8 @@ def replay(ctx, data):
                 want = float(a[ti]) / den; got = float(pop.get_charac("frac0").vals[ti])
                 vals = {"frac0": got, **{nm: float(pop.get_par(nm).vals[ti]) / k for nm in ("ra0", "out0") if any(p_["name"] == nm and p_.get("function") for p_ in rp["spec"]["pars"])}}
                 print(f"index {ti}: quotient {want!r}  seen {vals}")
-                bad = bad or any(abs(v - want) > 1e-9 * max(1.0, abs(want)) for v in vals.values())
+                alt = 0.0 if float(a[ti]) < 1e-6 * (1 + 1e-9) else want
+                bad = bad or any(abs(v - want) > 1e-9 * max(1.0, abs(want)) and abs(v - alt) > 1e-9 * max(1.0, abs(alt)) for v in vals.values())
         print("FAILS" if bad else "passes")
         return 1 if bad else 0
     if rp.get("kind") in ("generated", "demo", "spec"):
